@@ -49,6 +49,7 @@ type MFile struct {
 
 type MService struct {
 	Name      string      `json:"name"`
+	Abs       bool        `json:"absolute_path"` // a service HTTP path starts with "//"
 	Gen       bool        `json:"generate"`
 	Endpoints []MEndpoint `json:"endpoints"`
 	Files     []MFile     `json:"files"`
@@ -107,6 +108,9 @@ func extractModel() *MDesign {
 	}
 	for _, hs := range expr.Root.API.HTTP.Services {
 		ms := MService{Name: hs.Name(), Gen: !marked(hs.Meta, hs.ServiceExpr.Meta)}
+		for _, sp := range hs.Paths {
+			ms.Abs = ms.Abs || strings.HasPrefix(sp, "//")
+		}
 		for _, e := range hs.HTTPEndpoints {
 			me := MEndpoint{Name: e.Name(), Body: e.Body.Type != expr.Empty, Multipart: e.MultipartRequest, Gen: !marked(e.Meta, e.MethodExpr.Meta)}
 			for _, r := range e.Routes {
@@ -242,7 +246,7 @@ func (in *interner) coqDesign(md *MDesign) (string, bool) {
 			}
 			fss = append(fss, "mkmf (mkf ["+strings.Join(ps, "; ")+"]) "+vh.CoqBool(f.Gen))
 		}
-		svcs = append(svcs, fmt.Sprintf("mkms [%s] [%s] %s", strings.Join(eps, "; "), strings.Join(fss, "; "), vh.CoqBool(s.Gen)))
+		svcs = append(svcs, fmt.Sprintf("mkms [%s] [%s] %s %s", strings.Join(eps, "; "), strings.Join(fss, "; "), vh.CoqBool(s.Gen), vh.CoqBool(s.Abs)))
 	}
 	bt, bok := in.basePath(md.APIBase)
 	return fmt.Sprintf("(mkmd [%s] %s %s)", strings.Join(svcs, "; "), in.reqs(md.APIReqs), bt), ok && bok
